@@ -418,3 +418,81 @@ def cat_files(paths, out):
             with open(p) as f:
                 shutil.copyfileobj(f, o)
     return out
+
+
+# --------------------------------------------------------------------------
+# I->S: trace validation
+
+def split_trace(path, outdir, max_records=8000):
+    """ndJsonDeserialize materialises the whole file: shard into files of <= max_records."""
+    os.makedirs(outdir, exist_ok=True)
+    parts = []
+    cur = None
+    n = 0
+    with open(path) as f:
+        for line in f:
+            if not line.strip():
+                continue
+            if cur is None or n >= max_records:
+                if cur:
+                    cur.close()
+                pp = os.path.join(outdir, "part%03d.ndjson" % len(parts))
+                parts.append(pp)
+                cur = open(pp, "w")
+                n = 0
+            cur.write(line)
+            n += 1
+    if cur:
+        cur.close()
+    return parts
+
+
+TAGGED_RE = re.compile(r'^<<"(VIOLATION|SUMMARY|DRIFT)"')
+
+
+def parse_tla_tuple(line):
+    """<<"VIOLATION", 3, "x", 7>> -> ["VIOLATION", 3, "x", 7] (flat tuples of ints/strings only)."""
+    body = line.strip()
+    body = body.replace("<<", "[").replace(">>", "]")
+    body = body.replace("TRUE", "true").replace("FALSE", "false")
+    try:
+        return json.loads(body)
+    except Exception:
+        return [line.strip()]
+
+
+def validate_trace(ctx, module, trace_path, constants, tag, timeout=900, max_records=8000, par=8):
+    """Run the trace spec on every shard of the trace (one short-lived single-worker TLC per shard).
+    Returns (records, list of (shard_path, parsed VIOLATION tuples), summaries)."""
+    parts = split_trace(trace_path, os.path.join(ctx.dir, "trace_" + tag), max_records)
+    viol = []
+    summ = []
+    total = [0]
+
+    def mk(i, pp):
+        def job():
+            r = run_tlc(ctx, module, constants, ["Summary"], "%s_%03d" % (tag, i), workers=1, timeout=timeout,
+                        env_extra={"TRACE": pp}, postcondition="AllConsumed", xmx="3g")
+            nrec = sum(1 for _ in open(pp))
+            for t in r["tagged"]:
+                tup = parse_tla_tuple(t)
+                if tup and tup[0] == "VIOLATION":
+                    viol.append((pp, tup))
+                elif tup and tup[0] == "SUMMARY":
+                    summ.append(tup)
+            with ctx.lock:
+                total[0] += nrec
+        return job
+
+    parallel([mk(i, pp) for i, pp in enumerate(parts)], max_workers=par)
+    with ctx.lock:
+        ctx.traces += total[0]
+    return total[0], viol, summ
+
+
+def record_at(path, lineno):
+    with open(path) as f:
+        for i, line in enumerate(f, 1):
+            if i == lineno:
+                return json.loads(line)
+    return None
